@@ -7,6 +7,7 @@ from stone.backends.python_helpers import (
     class_name_for_annotation_type,
     class_name_for_data_type,
     emit_pass_if_nothing_emitted,
+    fmt_class,
     fmt_func,
     fmt_namespace,
     fmt_var,
@@ -317,7 +318,7 @@ class PythonTypeStubsBackend(CodeBackend):
             # If the alias is to a composite type, we want to alias the
             # generated class as well.
             self.emit('{} = {}'.format(
-                alias.name,
+                fmt_class(alias.name),
                 class_name_for_data_type(alias.data_type, namespace)))
 
     def _class_declaration_for_type(self, ns, data_type):
